@@ -51,4 +51,14 @@ def main():
 
 
 if __name__ == "__main__":
-    sys.exit(main())
+    rc = main()
+    # threads abandoned inside calls that never returned (vlib/bounded.py) would abort the interpreter's finalisation
+    # ("FATAL: exception not rethrown", exit 134): run the exit handlers, then leave without finalising
+    import atexit
+    try:
+        atexit._run_exitfuncs()
+    except Exception:  # noqa
+        pass
+    sys.stdout.flush()
+    sys.stderr.flush()
+    os._exit(rc if isinstance(rc, int) else 1)
